@@ -43,7 +43,12 @@ def resolution_cases(draw, tier="quick"):
     month = draw(st.sampled_from([0, 0, 1, 2]))
     instants = draw(st.lists(st.tuples(st.integers(0, 30), st.sampled_from([-1, 0, 0, 1, -86400 * US, 86400 * US, 3600 * US]),
                                        st.integers(-40 * 86400, 40 * 86400)), min_size=1, max_size=12))
-    return {"cls": cls, "start": [y, m], "span": span, "month": month, "instants": [list(i) for i in instants]}
+    # the chain may also be given as an explicit, unsorted contract list (the constructor sorts it)
+    perm = draw(st.one_of(st.none(), st.lists(st.integers(0, 10 ** 6), min_size=30, max_size=30)))
+    # a second chain of another class / start, resolved at the same instants in alternation with the first
+    other = draw(st.one_of(st.none(), st.tuples(st.sampled_from(CLASSES), st.integers(-3, 3), st.booleans())))
+    return {"cls": cls, "start": [y, m], "span": span, "month": month, "instants": [list(i) for i in instants],
+            "explicit_order": perm, "other": list(other) if other else None}
 
 
 def model_lead(ltds, t, month):
@@ -61,10 +66,23 @@ def run_resolution(case):
     start = "%04d-%02d" % (y, m)
     end = "%04d-%02d" % (min(em // 12, 2099), em % 12 + 1)
     chain = FutureChain(cls, start, end, month=case["month"])
+    if case.get("explicit_order") and len(chain.contracts) >= 2:
+        listed = list(chain.contracts)
+        keys = case["explicit_order"]
+        shuffled = [c for _, c in sorted(zip([(keys[i % len(keys)], i) for i in range(len(listed))], listed), key=lambda x: x[0])]
+        chain = FutureChain(contracts=shuffled, month=case["month"])
+        res.tag("explicit-unsorted-list")
     cs = chain.contracts
     if len(cs) < case["month"] + 2:
         res.excluded = "chain-too-short"
         return res
+    other = None
+    if case.get("other"):
+        ocls, dy, first = case["other"]
+        oy = min(max(y + dy, 1970), 2090)
+        other = FutureChain(getattr(C, ocls), "%04d-%02d" % (oy, m), "%04d-%02d" % (min(oy + 6, 2099), 12))
+        other_ltds = [to_dt(c.last_trading_date) for c in other.contracts]
+        res.tag("two-chains-alternating")
     ltds = [to_dt(c.last_trading_date) for c in cs]
     exact = 0
     times = []
@@ -82,12 +100,25 @@ def run_resolution(case):
         want = model_lead(ltds, t, case["month"])
         if want is None or want >= len(cs):
             continue            # outside the chain's span
+        if other is not None:
+            ow = model_lead(other_ltds, t, 0)
+            if ow is not None and ow < len(other.contracts):
+                if case["other"][2]:
+                    other.lead_contract(t)          # the other chain is resolved first at the same instant
+                got_o = other.lead_contract(t)
+                if got_o.symbol != other.contracts[ow].symbol:
+                    res.fail("second chain (%s): lead_contract(%s) = %s, model %s" % (case["other"][0], t, got_o.symbol, other.contracts[ow].symbol))
+                    return res
         got = chain.lead_contract(t)
         if got.symbol != cs[want].symbol:
             res.fail("%s chain (offset %d): lead_contract(%s) = %s, earliest last-trading date strictly after it belongs to %s (%s)" % (
                 case["cls"], case["month"], t, got.symbol, cs[want].symbol, ltds[want - case["month"]]))
             return res
         AbstractContract.now = t
+        if other is not None and ow is not None and ow < len(other.contracts):
+            if other.symbol != other.contracts[ow].symbol:
+                res.fail("second chain (%s): clock path at %s resolves to %s, model %s" % (case["other"][0], t, other.symbol, other.contracts[ow].symbol))
+                return res
         if chain.symbol != cs[want].symbol or chain.static_hashing().symbol != cs[want].symbol:
             res.fail("clock path at %s resolves to %s / %s, model lead is %s" % (t, chain.symbol, chain.static_hashing().symbol, cs[want].symbol))
             return res
